@@ -45,7 +45,7 @@ def gen(ctx, seed, n, steps):
     out = os.path.join(d, "hist.ndjson")
     _run(ctx, ["gen", "-seed", str(seed), "-n", str(n), "-steps", str(steps), "-out", out], d)
     recs, race = _collect(d, out)
-    return recs, race, len(recs) < n
+    return recs, race, len(recs) < n   # fewer records: the harness stopped early after a hung call or three failed histories
 
 
 def rerun(ctx, i, o):
